@@ -114,6 +114,8 @@ class State:
         s.pc = list(self.pc)
         s.facts = list(self.facts)
         s.tags = dict(self.tags)
+        if "ghosts" in s.tags:
+            s.tags["ghosts"] = dict(s.tags["ghosts"])
         s.ghost = self.ghost
         return s
 
@@ -206,6 +208,7 @@ class Engine:
         self.covers = []
         self.ufs = {}
         self.contracts = {}  # 'module:qualname' -> contract dict
+        self.contracts_all = {}  # unit id -> unit
         self.trusted = set()
         self.unit = "?"
         self.prop = "?"
@@ -234,7 +237,8 @@ class Engine:
     # ---------------------------------------------------------------- modules
     def module(self, rel):
         if rel not in self.modules:
-            self.modules[rel] = Module(os.path.join(self.repo, rel), rel)
+            path = rel if os.path.isabs(rel) else os.path.join(self.repo, rel)
+            self.modules[rel] = Module(path, rel)
         return self.modules[rel]
 
     def uf(self, name, *sig):
@@ -292,9 +296,7 @@ class Engine:
         if state.ghost:
             return
         if isinstance(goal, bool):
-            if goal:
-                return
-            g = z3.BoolVal(False)
+            g = z3.BoolVal(goal)
         else:
             g = V.bool_term(goal)
         parts = _split_goal(g)
@@ -425,6 +427,26 @@ class Engine:
             if m is not None:
                 return m
         return Opaque(key)
+
+    def set_ghost(self, name, val, st=None):
+        """path-local ghost variable (visible to contract clauses evaluated on this path)"""
+        st = st if st is not None and not isinstance(st, CurState) else self.cur_state
+        st.tags.setdefault("ghosts", {})[name] = val
+
+    def find_method(self, cls, attr, depth=0):
+        for rel, mod in list(self.modules.items()):
+            if f"{cls}.{attr}" in mod.functions:
+                return mod.functions[f"{cls}.{attr}"], mod
+        # base classes
+        for rel, mod in list(self.modules.items()):
+            cn = mod.classes.get(cls)
+            if cn is not None and depth < 4:
+                for b in cn.bases:
+                    if isinstance(b, ast.Name):
+                        r = self.find_method(b.id, attr, depth + 1)
+                        if r[0] is not None:
+                            return r
+        return None, None
 
     def setvar(self, state, fid, name, val):
         state.frames[fid]["vars"][name] = val
@@ -1173,6 +1195,8 @@ class Engine:
         if isinstance(a, ArrV):
             return self.np_map(st, lambda x: self.unop(self.pst, op, x), a)
         if isinstance(op, ast.USub):
+            if isinstance(a, Opaque) and a.name in ("inf", "-inf"):
+                return Opaque("-inf" if a.name == "inf" else "inf")
             return V.neg(a)
         if isinstance(op, ast.UAdd):
             return a
@@ -1311,7 +1335,7 @@ class Engine:
             r = self.contains(st, b, a)
             return r if isinstance(op, ast.In) else V.b_not(r)
         if isinstance(a, ArrV) or isinstance(b, ArrV):
-            return self.np_zip(st, lambda x, y: self.compare(self.pst, op, x, y), a, b)
+            return self.np_zip(st, lambda x, y: self.compare(self.pst, op, x, y), a, b, dtype="bool")
         sym = {ast.Eq: "==", ast.NotEq: "!=", ast.Lt: "<", ast.LtE: "<=", ast.Gt: ">", ast.GtE: ">="}[type(op)]
         if a is None or b is None:
             if sym == "==":
@@ -1427,6 +1451,17 @@ class Engine:
                 r = mh(self, st, base, obj, attr)
                 if r is not None:
                     return r
+            # methods / properties defined in the class (and its bases) in the repository source
+            node, mod = self.find_method(obj.cls, attr)
+            if node is not None:
+                is_prop = any((isinstance(d, ast.Name) and d.id == "property") for d in node.decorator_list)
+                if is_prop:
+                    clo = Closure(node, None, module=mod, name=f"{obj.cls}.{attr}")
+                    rs = self.call_closure(st, clo, [base], {})
+                    if len(rs) != 1 or isinstance(rs[0][1], _Raised):
+                        raise Unsupported(f"property {obj.cls}.{attr} forks")
+                    return rs[0][1]
+                return BoundMethod(base, attr)
             raise Unsupported(f"attribute {attr} of {obj.cls}")
         if isinstance(obj, ArrV):
             return array_attr(self, st, base, obj, attr)
@@ -1512,8 +1547,9 @@ class Engine:
             return self.np_index(st, obj, idx if isinstance(idx, tuple) else (idx,), line)
         if isinstance(obj, str) and isinstance(idx, int):
             return obj[idx]
-        if isinstance(obj, Opaque) and obj.name.startswith("kernel:"):
-            return Opaque(obj.name + "[launch]", {"kernel": obj, "launch": idx})
+        if isinstance(obj, Closure) and obj.module is not None:
+            # kernel[blocks, threads] : a configured CUDA launch
+            return Opaque(f"{obj.name}[launch]", {"kernel": obj, "launch": idx})
         raise Unsupported(f"subscript of {obj!r}")
 
     # comprehensions ------------------------------------------------------------
